@@ -388,6 +388,11 @@ for _n, _w in (("c15_nothing_can_follow_the_result", "Ok([true])"), ("c15_nothin
       what="the task's mpc future behind polytune::mpc(), with the actor's command queue full: the notification is sent and the future then finishes without another await (no point at which the select! could still switch to the cancel arm and send a second notification)", bounds=f"mpc() outcome {_w}, destination present, command queue full (enqueue pending for good)", functions=["state::PolicyState::run (mpc future of the spawned task behind the call of polytune::mpc)"], panic_prop="C15", stubs=[RS], est_gb=2)
 
 
+for _low, _var, _t in (("validated", "Validated", "quick"), ("sending_consts", "SendingConsts", "thorough"), ("sending_consts_completed", "SendingConstsCompleted", "thorough")):
+    H("state", f"c14_consts_sender_index_in_{_low}", needs_segment=["sc_consts", f"sc_{_low}_ctor"], tier=_t,
+      what=f"consts() while {_var} with any sender index: an index outside the policy's participants is answered with an error, nothing is stored, no compilation is triggered, state kept; an index inside is accepted", bounds=f"two participants, any usize sender index, state {_var}", functions=["state::PolicyState::consts (whole body)"], panic_prop="C14", stubs=[RS], est_gb=4)
+
+
 def by_prefix(*prefixes, tier=None):
     return [h for n, h in ALL.items() if any(n.startswith(p) for p in prefixes) and (tier is None or h["tier"] == tier)]
 
